@@ -26,6 +26,7 @@ def object_source(rnd, k):
                  "\t.section .foo,\"ax\",@progbits\nh:\n\tnop\n\tnop\n\tcall h\n\tret\n")
     if k % 3:
         parts.append("\t.section .plt.got,\"ax\",@progbits\np:\n\tjmp *0x10(%rip)\n\tnop\n")
+    parts.append("\t.section .text.Foo_Bar,\"ax\",@progbits\nFoo_Bar:\n\tmov %rax,%rbx\n\tnop\n\tcall Foo_Bar\n\tret\n")
     parts.append("\t.data\nd:\n\t.byte 0x90,0x90,0xc3,0x00\n")
     return "".join(parts)
 
